@@ -1,4 +1,60 @@
-"""C18 — not built yet."""
+"""C18 — generated DeepEqual is structural equality; validate_set rejects exactly the sets with two equal elements (DESIGN.md §5.18)."""
+import json, os
+from vlib import core
+
+THEOREMS = ["Props.C18." + t for t in [
+    "facts_current", "deep_equal_iff_partial", "deep_equal_no_false_negative", "deep_equal_refl", "deep_equal_identical",
+    "deep_equal_symm_partial", "deep_equal_nil_safe", "validate_set_iff", "validate_set_write", "write_eq_std",
+    "deep_equal_iff_fails_missing_key", "deep_equal_iff_fails_struct_key", "deep_equal_iff_fails_optional_binary",
+    "deep_equal_not_symmetric", "validate_set_rejects_distinct"]]
+
+
 def run(ctx):
-    print("C18: no check built yet")
-    return 2
+    exe = ctx.go_build("c18")
+    ctx.trusted += ["translator harness/cmd/c18 extract (skeleton facts lenTest / commaOk of templates.FieldDeepEqualContainer, by regular expression on the template text)",
+                    "correspondence: generated code (gen_deep_equal and not) compiled in one batch (harness/internal/batch) and driven by reflection vs tv_c18",
+                    "oracle: structural equality valEq computed in Go by harness/cmd/c18/spec.go, tied line by line (op V) to the Lean specification Gen.DeepEq.valEq"]
+    ctx.assumptions += ["the two objects compared are disjoint object graphs (built independently); identity x.DeepEqual(x) and a shallow copy are modelled separately (ops EI / EA)",
+                        "Go map iteration order does not matter (every comparison is pure; proved panic-free)",
+                        "reflect.DeepEqual (validate_set without gen_deep_equal) = Gen.goEq; set elements holding non-empty struct-keyed maps are not duplicated in those units",
+                        "apache/thrift v0.13.0 TBinaryProtocol = Core.Wire primitives (as C02); Go reflect in the driver"]
+    ctx.partial += ["deep_equal_iff is FALSE on the current tree (three defect classes, each with a `decide`d witness replayed on the generated code); "
+                    "deep_equal_iff_partial holds for pairs whose maps, met in lockstep, have equal key sets of base type and that do not pit an unset optional binary against an empty one",
+                    "deep_equal_symm_partial / deep_equal_refl carry the same kind of hypothesis; deep_equal_not_symmetric is the residue",
+                    "validate_set_iff is exact for the comparison the template uses; 'two equal elements' in the sense of valEq only under deep_equal_iff_partial's hypothesis (validate_set_rejects_distinct is the witness)"]
+    if exe:
+        rc, gen = core.sh([exe, "extract", "-repo", core.REPO])
+        ctx.obligation("translator:c18-extract", rc == 0, gen[-2000:] if rc else "")
+        if rc == 0:
+            ctx.write_generated("C18", gen)
+    built = ctx.lake_build(["ThriftVerif.Props.C18"], "lake-build:Props.C18")
+    drv = ctx.lake_build(["tv_c18"], "lake-build:tv_c18")
+    if built:
+        ctx.audit("C18", THEOREMS)
+        if ctx.tier == "thorough":
+            ctx.leanchecker(["ThriftVerif.Props.C18"])
+    if exe:
+        seed = ctx.seed
+        only = None
+        if ctx.replay:
+            doc = json.load(open(ctx.replay))
+            seed = doc.get("seed", seed)
+            only = doc.get("key")
+        rc, out = core.sh([exe, "run", "-repo", core.REPO, "-dir", ctx.work, "-seed", str(seed), "-tier", ctx.tier], timeout=3400)
+        if rc not in (0, 1) or not os.path.exists(os.path.join(ctx.work, "stats.json")):
+            raise core.MachineryError("c18 run failed: " + out[-3000:])
+        st = json.load(open(os.path.join(ctx.work, "stats.json")))
+        dist = st["distribution"]
+        ctx.cov.update(evaluations=st["evaluations"], distinct_nontrivial=st["distinct_nontrivial"], samples=st["samples"] or [],
+                       distribution=dist, programs=sum(v for k, v in dist.items() if k.startswith("unit.options.")))
+        for f in (st.get("oracle_failures") or []):
+            if only and f["key"] != only:
+                continue
+            ctx.add_violation(f["key"], f["what"], f["input"], f["expected"], f["observed"])
+        if drv:
+            ops = os.path.join(ctx.work, "ops.txt")
+            model = ctx.run_model("tv_c18", ops)
+            ctx.diff_lines("c18:Gen.DeepEq-vs-generated-code", ops, os.path.join(ctx.work, "impl.txt"), model)
+    return ctx.finish(rule="(program, option set, struct, value pair | value) cases: directed minimal witnesses plus seeded type-directed values with one mutation "
+                           "(leaf / nil-vs-empty / presence / map size / map key / list length), deep copies, independent pairs, nil receivers, identity, shallow copy, "
+                           "Write with and without a repeated set element; every op except schema lines is non-trivial; distinct by sha256 of the op line")
